@@ -13,6 +13,7 @@ CONSTANTS
   Weights <- DistOnly
   Surs = {0}
   CUs <- BaseCU
+  Rts <- NoRt
   NoDst = TRUE
   OkSubsets = TRUE
   NeedConsistent = FALSE
